@@ -40,9 +40,11 @@ elements), a successful run's image IS the two-pass reference layout of the prog
   the task list of the layout core related entry by entry — `TasksRel`), `doAssemble_sim`, `runTask_sim`,
   `localLoop_sim`, `run_sim` (Lemmas/AsmRefineRun.lean); (iii) the general retry theorem `Front.assemble_retry` /
   `Asm.data_retry` (Lemmas/AsmRetry.lean, property level: Props/C08Asm.lean).
-  Hypothesis `plain` (every sub-tree an interrupted evaluation has completed is a leaf or register-free arithmetic):
+  Hypothesis `plain` (every sub-tree an interrupted evaluation has completed is a leaf, register-free arithmetic or
+  `Rn + c`):
   needed because `evaluate` is not idempotent on its own output (`Simp.resumes_false`); it covers `imm`,
-  `label ± expr`, `[Rn + expr]`, `[expr + Rn]`, `[Rn + sym + 4]`, register lists, every `.du*` arithmetic.
+  `label ± expr`, `[Rn + expr]`, `[expr + Rn]`, `[Rn + sym + 4]`, `[Rn + 4 + sym]`, register lists, every `.du*`
+  arithmetic.
   `NoLabelAtTop` is needed for `Ref.layout` (pass 1) only, exactly as in `Layout.ref_defined`.
 -/
 namespace Trion.Asm
